@@ -36,3 +36,21 @@ Print Assumptions C02_consts_current.
 Example C02_nonvacuous_short :
   is_ok (adc_decode adc_macs Checked [1;3;0;4;5;139;2;187;0;0;0;7;0x20;0;0;0]) = true.
 Proof. vm_compute. reflexivity. Qed.
+
+(* non-vacuity of the long form: a 130-sample packet of board 09 (130 requested + 2 = 132), no suppression,
+   baseline 3005 = floor of the mean of the first 64 samples; it decodes, satisfies adc_fields_ok with Some long part,
+   and re-encodes to the same bytes *)
+Definition ex_long_adc : list N :=
+  [1; 3; 0; 4; 5; 130; 0; 132; 0; 0; 0; 7; 0; 0; 216; 128; 57; 104; 55; 76] ++ repeat 0 12 ++
+  flat_map (fun _ => [11; 189]) (seq 0 100) ++ flat_map (fun _ => [11; 191]) (seq 0 30) ++ [0; 0; 11; 189].
+Example C02_nonvacuous_long :
+  match adc_decode adc_macs Checked ex_long_adc with
+  | Ok f => match a_long f with Some lg => (length (al_wave lg) =? 130)%nat | None => false end
+            && list_eqb (adc_encode f 0) ex_long_adc
+  | _ => false
+  end = true.
+Proof. vm_compute. reflexivity. Qed.
+(* the same packet with requested_samples = 1 (finding F1: 1 - 2 over Z admits nothing) is rejected, not a panic *)
+Example C02_requested_samples_1_rejected :
+  is_err (adc_decode adc_macs Checked (firstn 6 ex_long_adc ++ [0; 1] ++ skipn 8 ex_long_adc)) = true.
+Proof. vm_compute. reflexivity. Qed.
